@@ -30,8 +30,12 @@ ORACLE_EVERY = True  # the end-to-end comparison with the uncut circuit is run o
 def cases(rng, tier):
     N = 60 if tier == "quick" else 700
     for _ in range(N):
-        p = workflow.gen_problem(rng, max_q=5, max_cuts=2, depth=6)
-        p["form"] = "single" if rng.random() < 0.3 else "dict"
+        if rng.random() < 0.25:
+            p = workflow.gen_chain_problem(rng)
+            p["form"] = "dict"
+        else:
+            p = workflow.gen_problem(rng, max_q=5, max_cuts=2, depth=6)
+            p["form"] = "single" if rng.random() < 0.3 else "dict"
         p["N"] = None
         p["seed"] = 0
         yield ("roundtrip", p)
